@@ -41,6 +41,7 @@ def run(ctx):
     _round6(ctx)
     _round7(ctx)
     _round8(ctx)
+    _round10(ctx)
 
 
 def _run_main(ctx):
@@ -295,3 +296,10 @@ def _round8(ctx):
         A.include(ctx, r, 'c16', 'R16.4', pick=('done-table',))
     with ctx.rule('R01.16', "a CloseOk answering a refusal during the handshake is queued before the buffer is sealed (shared with C08)", floor=1) as r:
         A.include(ctx, r, 'c08', 'R08.1', pick=('handshake:closeok-seal-state',))
+
+
+def _round10(ctx):
+    """Rules of other properties that are necessary conditions of this one too (found by seeding round 10: two cooperating sites, indirection)."""
+    from rules import arms as A
+    with ctx.rule('R01.17', "a frame on the wire is well-formed for this connection: a body frame's payload is cut at the negotiated frame_max minus the 8 bytes of envelope, for every negotiated value (shared with C02)", floor=4) as r:
+        A.include(ctx, r, 'c02', 'R02.4', pick=('payload-limit',))
